@@ -3,6 +3,7 @@ CONSTANTS
   MaxTime = 3
   Cap0 = 0
   Faults = FALSE
+  ExportMode = "fixed"
   CapMode = "fixed"
   GetMode = "getAsCoded"
   Emit = FALSE
